@@ -2,6 +2,7 @@ package harness
 
 import (
 	"fmt"
+	"strings"
 	"sync"
 	"testing"
 	"testing/synctest"
@@ -129,11 +130,88 @@ func healthyIdleCase(t *testing.T, ping, pong, latency, idle time.Duration) (clo
 	return closed, res.Leaked + res.Panic
 }
 
+// healthyIdleLossCase: as healthyIdleCase, but the relay loses exactly one packet of the keepalive
+// exchange (the k-th data-phase packet travelling in direction dir). The peer is alive and answers
+// the retransmission well inside the pong timeout, so the connection must be kept.
+func healthyIdleLossCase(t *testing.T, ping, pong, latency time.Duration, dir, k int, idle time.Duration) (closed bool, leaked string) {
+	faults := make([]Fault, k+1)
+	faults[k] = Fault{Drop: true}
+	sc := &GbnScenario{Name: fmt.Sprintf("healthy-idle-loss-d%d-k%d", dir, k), N: 20, Latency: latency, PingNs: int64(ping), PongNs: int64(pong),
+		HsTimeout: 4*latency + time.Second, Static: time.Second}
+	sc.Faults[dir] = cleanHS(dir, faults)
+	res := RunGbnBody(t, sc, func(sim *Sim, conns [2]*gbn.GoBackNConn, res *GbnResult) {
+		for ep := 0; ep < 2; ep++ {
+			ep := ep
+			res.tw.Add(1)
+			go func() {
+				defer res.tw.Done()
+				for {
+					if _, err := conns[ep].Recv(); err != nil {
+						return
+					}
+				}
+			}()
+		}
+		time.Sleep(idle)
+		synctest.Wait()
+		closed = conns[0].VClosed() || conns[1].VClosed()
+	})
+	return closed, res.Leaked + res.Panic
+}
+
 // bound on the time from silence to closure: of the order of ping + pong, plus
 // resend rounds during which the timers are not serviced (3 x resend timeout,
 // boosted by 50% per round)
 func kaBound(c kaCase) time.Duration {
 	return 3*(c.Ping+c.Pong) + 14*time.Second
+}
+
+// mailboxDeadPeerCase: real Client/Server mailbox connections (the configuration the product runs
+// with: client ping 7 s, server ping 5 s, pong 3 s) over the fake relay. After `reconnects`
+// close-and-reconnect rounds (the later connections are created by RefreshClientConn /
+// RefreshServerConn) the relay silently drops everything; both sides must notice.
+func mailboxDeadPeerCase(reconnects, seed int) (detect [2]time.Duration, setupErr string) {
+	relay := NewFakeRelay()
+	st, err := NewStack(relay, seed)
+	if err != nil {
+		return detect, err.Error()
+	}
+	defer st.Shutdown()
+	srv, cli := st.Connect()
+	for i := 0; i < reconnects && srv.Err == nil && cli.Err == nil; i++ {
+		cli.Mailbox.Close()
+		srv.Mailbox.Close()
+		srv, cli = st.Connect()
+	}
+	if srv.Err != nil || cli.Err != nil {
+		return detect, fmt.Sprintf("no connection: %v / %v", srv.Err, cli.Err)
+	}
+	relay.mu.Lock()
+	relay.Fault = func(op, sid string, n int) RelayFault {
+		if op == "send" {
+			return RelayFault{Drop: true}
+		}
+		return RelayFault{}
+	}
+	relay.mu.Unlock()
+	t0 := time.Now()
+	var wg sync.WaitGroup
+	for i, c := range []SecureConn{cli, srv} {
+		i, c := i, c
+		detect[i] = -1
+		wg.Add(1)
+		go func() {
+			defer wg.Done()
+			c.Mailbox.SetReadDeadline(time.Now().Add(60 * time.Second))
+			if _, err := c.Conn.Read(make([]byte, 16)); err != nil && !strings.Contains(err.Error(), "timeout") {
+				detect[i] = time.Since(t0)
+			}
+		}()
+	}
+	wg.Wait()
+	cli.Mailbox.Close()
+	srv.Mailbox.Close()
+	return detect, ""
 }
 
 func TestC13(t *testing.T) {
@@ -205,6 +283,51 @@ func TestC13(t *testing.T) {
 			})
 		}
 	})
+	// the mailbox layer's own connections, first and refreshed ones (wall clock)
+	{
+		var wg sync.WaitGroup
+		var mmu sync.Mutex
+		for _, rc := range []int{0, 1, 2}[:pick(2, 3)] {
+			rc := rc
+			wg.Add(1)
+			go func() {
+				defer wg.Done()
+				d, bad := mailboxDeadPeerCase(rc, 400+rc)
+				mmu.Lock()
+				defer mmu.Unlock()
+				r.Case(fmt.Sprintf("mailbox-dead-peer:reconnects=%d", rc), true, "mailbox-dead-peer")
+				if bad != "" {
+					r.Violate("C13/mailbox-setup", bad, rc)
+					return
+				}
+				for i, who := range []string{"client", "server"} {
+					if d[i] < 0 || d[i] > 45*time.Second {
+						r.Violate("C13/dead-peer-not-detected", fmt.Sprintf("mailbox connection number %d of the session (%s side, keepalive %s): the relay went silent and a blocked Read had not failed after %v",
+							rc+1, who, map[bool]string{true: "7 s / 3 s", false: "5 s / 3 s"}[i == 0], map[bool]interface{}{true: "60 s", false: d[i]}[d[i] < 0]),
+							map[string]interface{}{"reconnects": rc, "side": who})
+					}
+				}
+			}()
+		}
+		wg.Wait()
+	}
+	// a live peer survives the loss of any single keepalive packet (ping, its ACK, ...): the
+	// retransmission after 1 s is answered inside the 3 s pong timeout
+	for _, pp := range [][2]time.Duration{{5 * time.Second, 3 * time.Second}, {7 * time.Second, 3 * time.Second}} {
+		for dir := 0; dir < 2; dir++ {
+			for k := 0; k < pick(4, 10); k++ {
+				closed, bad := healthyIdleLossCase(t, pp[0], pp[1], 50*time.Millisecond, dir, k, 3*time.Minute)
+				r.Case(fmt.Sprintf("idle-loss:%v:%d:%d", pp, dir, k), true, "healthy-idle-one-loss")
+				if closed {
+					r.Violate("C13/live-peer-closed", fmt.Sprintf("idle connection (ping %v, pong %v, latency 50 ms, resend timeout 1 s): the %d-th keepalive packet travelling in direction %d was lost once; the live peer answered the retransmission, yet the connection was closed",
+						pp[0], pp[1], k, dir), map[string]interface{}{"ping": pp[0], "pong": pp[1], "dir": dir, "k": k})
+				}
+				if bad != "" {
+					r.Violate("C13/idle-run-failed", bad, k)
+				}
+			}
+		}
+	}
 	// healthy idle peers are never closed
 	type idle struct {
 		pp  [2]time.Duration
